@@ -2,6 +2,7 @@ package core
 
 import (
 	"bytes"
+	"context"
 	"fmt"
 	"os"
 	"os/exec"
@@ -9,6 +10,7 @@ import (
 	"runtime/debug"
 	"strings"
 	"syscall"
+	"time"
 
 	"github.com/fatih/color"
 	"github.com/sboehler/knut/cmd"
@@ -244,9 +246,27 @@ func (d *Driver) run(sc vsched.Controller, args []string) *Outcome {
 // BinaryPath is where `check` builds the plain binary.
 var BinaryPath = filepath.Join(Root, ".cache", "bin", "knut-plain")
 
+// RunBinaryLimited executes the real binary under an address-space limit and a
+// deadline (for inputs that may make the program allocate or compute without bound:
+// they cannot be run inside the harness process). A run that is still going at the
+// deadline is killed and reported with Horizon set.
+func (d *Driver) RunBinaryLimited(deadline time.Duration, asBytes int64, args ...string) *Outcome {
+	ctx, cancel := context.WithTimeout(context.Background(), deadline)
+	defer cancel()
+	c := exec.CommandContext(ctx, "prlimit", append([]string{fmt.Sprintf("--as=%d", asBytes), BinaryPath}, args...)...)
+	o := d.runCmd(c)
+	if ctx.Err() != nil {
+		o.Horizon = true
+	}
+	return o
+}
+
 // RunBinary executes the real binary in the driver's scratch directory.
 func (d *Driver) RunBinary(args ...string) *Outcome {
-	c := exec.Command(BinaryPath, args...)
+	return d.runCmd(exec.Command(BinaryPath, args...))
+}
+
+func (d *Driver) runCmd(c *exec.Cmd) *Outcome {
 	c.Dir = d.Dir
 	var so, se bytes.Buffer
 	c.Stdout, c.Stderr = &so, &se
